@@ -146,7 +146,10 @@ CAGE_NAMES = ["C60", "C20", "cube", "petersen", "heawood", "desargues", "trunc_t
               "frucht", "tutte", "K4", "prism3", "prism5", "moebius"]
 
 
-def build(rng, n, edges, deg, kinds_for, extra_subst=0.25):
+ISOTOPES = {"C": (13, 14, 12, 11), "N": (15, 13), "O": (18, 17), "S": (34, 33), "P": (32,), "Se": (77,), "B": (10, 11)}
+
+
+def build(rng, n, edges, deg, kinds_for, extra_subst=0.25, p_isotope=0.04):
     """Assemble a GMol from ring graph + kind assignment.
     Returns (mol, kind_of: list, arom_edges:set)."""
     m = GMol()
@@ -174,13 +177,73 @@ def build(rng, n, edges, deg, kinds_for, extra_subst=0.25):
             w = m.add_atom(GAtom(rng.choice(["C", "F", "Cl", "O", "N", "Br"])))
             m.add_bond(v, w, 1)
             kind_of[v] = "cR"
+    # isotope labels: the same atom kind written as a bracket atom, so the H count of organic-subset atoms has to be
+    # spelled out ([13cH] for an unsubstituted c, [13c] for a substituted or fusion c, [15n], [18o], ...)
+    for v in range(n):
+        a = m.atoms[v]
+        if a.element in ISOTOPES and rng.random() < p_isotope:
+            if a.hcount is None:
+                a.hcount = 1 if (kind_of[v] == "c" and deg[v] == 2) else 0
+            a.isotope = rng.choice(ISOTOPES[a.element])
     return m, kind_of, set(edges)
+
+
+def link_systems(rng, parts, bridge=True):
+    """Join ring systems by single bonds between plain aromatic carbons (biaryl type); with `bridge` a second
+    connection through a saturated carbon closes a new ring through the single bond (fluorene type).
+    parts: list of (mol, kind_of, arom_edges).  Returns (mol, kind_of, arom_edges) of the union; the single bonds
+    are ordinary order-1 bonds between aromatic atoms (they are NOT aromatic edges)."""
+    m = GMol()
+    kind_of, ae, offs = [], set(), []
+    for (pm, pk, pe) in parts:
+        off = len(m.atoms)
+        offs.append(off)
+        for i, a in enumerate(pm.atoms):
+            m.add_atom(GAtom(a.element, isotope=a.isotope, hcount=a.hcount, charge=a.charge, aromatic=a.aromatic,
+                             kind=a.kind))
+            kind_of.append(pk[i] if i < len(pk) else None)
+        for (x, y), o in pm.bonds.items():
+            m.add_bond(x + off, y + off, o)
+        for (x, y) in pe:
+            ae.add((x + off, y + off))
+    val = m.valences()
+
+    def free_c(pi):
+        off = offs[pi]
+        n = len(parts[pi][1])
+        return [off + i for i in range(n) if kind_of[off + i] == "c" and m.atoms[off + i].hcount is None
+                and abs(val[off + i] - 3.0) < 1e-9 and m.atoms[off + i].isotope is None]
+    for pi in range(len(parts) - 1):
+        a_c, b_c = free_c(pi), free_c(pi + 1)
+        if not a_c or not b_c:
+            continue
+        a, b = rng.choice(a_c), rng.choice(b_c)
+        m.add_bond(a, b, 1)
+        kind_of[a] = kind_of[b] = "cR"
+        val[a] += 1
+        val[b] += 1
+        if bridge and rng.random() < 0.5:
+            a2 = [x for x in free_c(pi) if x != a]
+            b2 = [x for x in free_c(pi + 1) if x != b]
+            if a2 and b2:
+                x, y = rng.choice(a2), rng.choice(b2)
+                w = m.add_atom(GAtom(rng.choice(["C", "O", "S", "N"])))
+                kind_of.append(None)
+                m.add_bond(x, w, 1)
+                m.add_bond(w, y, 1)
+                kind_of[x] = kind_of[y] = "cR"
+                val[x] += 1
+                val[y] += 1
+                val.append(2)
+    return m, kind_of, ae
 
 
 def pi_set(kind_of):
     """(P, unknown): atoms that need a pi bond / atoms with no claim."""
     P, unknown = set(), set()
     for v, k in enumerate(kind_of):
+        if k is None:
+            continue        # a non-aromatic atom of a linked system
         needs = ALL_KINDS[k][3]
         if needs is None:
             unknown.add(v)
